@@ -13,6 +13,8 @@ state + both channels + harness bookkeeping).  A path is cut at its first violat
 The exchange model builds its execution reports / cancel rejects itself (asyncfix.fix_tester is NOT used).
 """
 import copy
+import enum
+import hashlib
 from collections import deque, namedtuple
 
 from asyncfix import FIXMessage
@@ -37,9 +39,17 @@ PRES = [
     {"px": 99.25, "ticker": "EURUSD", "side": "1", "acct": "ACC-7"},
     {"px": 250.0, "ticker": "X", "side": "2", "acct": "Z"},
 ]
+# phases: max_inflight = bound on reports in flight (None = unbounded); max_req = cancel/replace requests
 TIERS = {
-    "quick": {"depth": 14, "max_req": 2},
-    "thorough": {"depth": 20, "max_req": 3},
+    "quick": [
+        {"name": "wide", "depth": 12, "max_req": 2, "max_inflight": None},
+        {"name": "deep", "depth": 18, "max_req": 3, "max_inflight": 3},
+    ],
+    "thorough": [
+        {"name": "wide", "depth": 16, "max_req": 2, "max_inflight": None},
+        {"name": "deep4", "depth": 22, "max_req": 3, "max_inflight": 4},
+        {"name": "deep", "depth": 26, "max_req": 4, "max_inflight": 3},
+    ],
 }
 
 SEND_EVENTS = ("c:cancel", "c:rep_px", "c:rep_up", "c:rep_dn", "c:rep_lo")
@@ -232,6 +242,19 @@ class Node:
         self.sends = ()
 
 
+_ATOMS = (str, int, float, bool, type(None), bytes, enum.Enum)
+
+
+def clone(o):
+    """Deep copy of the order object (atoms shared, anything else deep-copied)."""
+    c = copy.copy(o)
+    d = c.__dict__
+    for k, val in d.items():
+        if not isinstance(val, _ATOMS):
+            d[k] = copy.deepcopy(val)
+    return c
+
+
 def okey(o):
     return tuple(sorted((k, repr(v)) for k, v in vars(o).items()))
 
@@ -280,21 +303,32 @@ def good_id(root, cid):
     return tail.isascii() and tail.isdigit()
 
 
-def send_probe(n, ev, env):
+def can_probe(n):
+    """(can_cancel(), can_replace()) asked on a copy; an exception object stands for a raise."""
+    o = clone(n.o)
+    out = []
+    for f in (o.can_cancel, o.can_replace):
+        try:
+            out.append(bool(f()))
+        except Exception as ex:
+            out.append(ex)
+    return out
+
+
+def send_probe(n, ev, env, cans):
     """Client tries a cancel / replace on a copy of the order.
 
     Returns None when the order says it cannot (or the flavour is void), else (child or None, violations).
     """
-    o = copy.deepcopy(n.o)
     v = []
     is_cancel = ev == "c:cancel"
     what = "can_cancel" if is_cancel else "can_replace"
-    try:
-        can = o.can_cancel() if is_cancel else o.can_replace()
-    except Exception as ex:
-        return None, [("builder", {"event": ev, "observed": f"{what}() raised {exc(ex)}"})]
+    can = cans[0] if is_cancel else cans[1]
+    if isinstance(can, Exception):
+        return None, [("builder", {"event": ev, "observed": f"{what}() raised {exc(can)}"})]
     if not can:
         return None
+    o = clone(n.o)
     if is_cancel:
         args = ()
     else:
@@ -342,7 +376,7 @@ def step(n, ev, env):
     if ev == "c:new":
         if n.h.sent_new:
             return None
-        o = copy.deepcopy(n.o)
+        o = clone(n.o)
         try:
             m = o.new_req()
             cid, px, qty = m.get(11), m.get(44), m.get(38)
@@ -357,7 +391,7 @@ def step(n, ev, env):
         d = dict(tags)
         if mt == "8":
             d[17] = f"E{n.depth}"
-        o = copy.deepcopy(n.o)
+        o = clone(n.o)
         before = sval(o.status)
         v = []
         try:
@@ -384,8 +418,8 @@ def step(n, ev, env):
         e, r = exch_recv(n.e, n.req[0])
         rep = n.rep if r is None else n.rep + (r,)
         return Node(n.o, e, n.req[1:], rep, n.h, n.ann, n.depth + 1), []
-    # spontaneous exchange actions
-    if ev not in exch_enabled(n.e, env["unit"]):
+    # spontaneous exchange actions (each puts one report in flight)
+    if len(n.rep) >= env["max_inflight"] or ev not in exch_enabled(n.e, env["unit"]):
         return None
     e, r = exch_act(n.e, ev, env)
     return Node(n.o, e, n.req, n.rep + (r,), n.h, n.ann, n.depth + 1), []
@@ -408,8 +442,9 @@ def assess(n, env):
         v.append(("status_enum", {"observed": f"{type(o.status).__name__} {o.status!r}",
                                   "expected": "FOrdStatus member"}))
     sends = []
+    cans = can_probe(n)
     for ev in SEND_EVENTS:
-        r = send_probe(n, ev, env)
+        r = send_probe(n, ev, env, cans)
         if r is None:
             continue
         child, vv = r
@@ -436,7 +471,7 @@ def assess(n, env):
             for name, call in (("cancel", lambda x: x.cancel_req()),
                                ("replace", lambda x: x.replace_req(x.price + 1.0, float("nan"))),
                                ("new", lambda x: x.new_req())):
-                o2 = copy.deepcopy(o)
+                o2 = clone(o)
                 try:
                     if name != "new":
                         can = o2.can_cancel() if name == "cancel" else o2.can_replace()
@@ -494,30 +529,36 @@ def make_violation(n, path, clause, detail, env):
 
 
 # --------------------------------------------------------------------------- BFS (one worker item)
-def make_env(root_i, cfg_i, pres, item=0):
+def make_env(root_i, cfg_i, pres, item=0, max_inflight=10 ** 6):
     root, shape = ROOTS[root_i]
     cname, qty, unit = CFGS[cfg_i]
     env = dict(pres)
-    env.update(root=root, shape=shape, cfg=cname, qty=qty, unit=unit, pres=dict(pres), item=item)
+    env.update(root=root, shape=shape, cfg=cname, qty=qty, unit=unit, pres=dict(pres), item=item,
+               max_inflight=max_inflight)
     return env
 
 
 PARAMS = {}
 
 
+def digest_key(k):
+    return hashlib.blake2b(repr(k).encode("utf-8", "backslashreplace"), digest_size=12).digest()
+
+
 def explore(item):
-    idx, root_i, cfg_i = item
-    env = make_env(root_i, cfg_i, PARAMS["pres"], idx)
-    max_depth, max_req = PARAMS["depth"], PARAMS["max_req"]
+    idx, phase_i, root_i, cfg_i = item
+    ph = PARAMS["phases"][phase_i]
+    env = make_env(root_i, cfg_i, PARAMS["pres"], idx, ph["max_inflight"] or 10 ** 6)
+    max_depth, max_req = ph["depth"], ph["max_req"]
     root = initial(env)
-    root.key = nkey(root)
+    root.key = digest_key(nkey(root))
     parent = {root.key: None}
     viols = {}
     stats = {"states": 1, "transitions": 0, "real_calls": 0, "quiescent": 0, "violating_states": 0,
              "frontier_cut": 0, "req_cap_probes": 0, "max_depth_seen": 0}
     outcomes = set()
     nontrivial = set()
-    samples = []
+    sample = [None]
 
     def path_of(key):
         p = []
@@ -525,6 +566,16 @@ def explore(item):
             key, ev = parent[key]
             p.append(ev)
         return p[::-1]
+
+    def record(n, p, v):
+        stats["violating_states"] += 1
+        for clause, detail in v:
+            x = make_violation(n, p, clause, detail, env)
+            old = viols.get(x["signature"])
+            if old is None:
+                viols[x["signature"]] = x
+            else:
+                old["count"] += 1
 
     def admit(n):
         """Judge a new state; returns True when it is to be expanded."""
@@ -535,20 +586,11 @@ def explore(item):
             oc = (sval(n.o.status), n.e.status, n.h.n_req)
             outcomes.add(oc)
             if n.h.n_req:
-                nontrivial.add((okey(n.o), n.e))
-            if len(samples) < 3 and n.h.n_req and n.depth >= 8:
-                samples.append({"root": env["root"], "cfg": env["cfg"], "path": path_of(n.key),
-                                "order_status": oc[0], "exchange_status": oc[1]})
+                nontrivial.add(digest_key((okey(n.o), n.e)))
+            if n.h.n_req == max_req and not v and (sample[0] is None or n.depth > sample[0][0]):
+                sample[0] = (n.depth, n.key, oc)
         if v:
-            stats["violating_states"] += 1
-            p = path_of(n.key)
-            for clause, detail in v:
-                x = make_violation(n, p, clause, detail, env)
-                old = viols.get(x["signature"])
-                if old is None:
-                    viols[x["signature"]] = x
-                else:
-                    old["count"] += 1
+            record(n, path_of(n.key), v)
             return False
         n.sends = sends
         return True
@@ -558,10 +600,6 @@ def explore(item):
         q.append(root)
     while q:
         n = q.popleft()
-        stats["max_depth_seen"] = max(stats["max_depth_seen"], n.depth)
-        if n.depth >= max_depth:
-            stats["frontier_cut"] += 1
-            continue
         children = []
         if n.h.n_req < max_req:
             children += n.sends
@@ -577,52 +615,56 @@ def explore(item):
             if ev[0] == "c":
                 stats["real_calls"] += 1
             if child is None or v:
-                # the event itself failed on the real code: attribute to a pseudo state
+                # the event itself failed on the real code: attribute it to a pseudo state
                 if child is None:
                     child = Node(n.o, n.e, n.req, n.rep, n.h, n.ann, n.depth + 1)
-                p = path_of(n.key) + [ev]
-                stats["violating_states"] += 1
-                for clause, detail in v:
-                    x = make_violation(child, p, clause, detail, env)
-                    old = viols.get(x["signature"])
-                    if old is None:
-                        viols[x["signature"]] = x
-                    else:
-                        old["count"] += 1
+                record(child, path_of(n.key) + [ev], v)
                 continue
             children.append((ev, child))
         for ev, child in children:
             if ev in SEND_EVENTS:
                 stats["transitions"] += 1
-            k = nkey(child)
+            k = digest_key(nkey(child))
             if k in parent:
                 continue
             child.key = k
             parent[k] = (n.key, ev)
             stats["states"] += 1
+            if child.depth > stats["max_depth_seen"]:
+                stats["max_depth_seen"] = child.depth
             if admit(child):
-                q.append(child)
+                if child.depth >= max_depth:
+                    stats["frontier_cut"] += 1  # judged, not expanded
+                else:
+                    q.append(child)
+    samples = []
+    if sample[0] is not None:
+        samples.append({"phase": ph["name"], "root": env["root"], "cfg": env["cfg"], "path": path_of(sample[0][1]),
+                        "order_status": sample[0][2][0], "exchange_status": sample[0][2][1]})
     return {"stats": stats, "viols": list(viols.values()), "outcomes": sorted(outcomes),
             "nontrivial": len(nontrivial), "samples": samples}
 
 
 # --------------------------------------------------------------------------- entry points
 def run(ctx):
-    t = TIERS[ctx.tier]
+    phases = TIERS[ctx.tier]
     pres = PRES[ctx.seed % len(PRES)]
-    PARAMS.update(depth=t["depth"], max_req=t["max_req"], pres=pres)
+    PARAMS.update(phases=phases, pres=pres)
     items = []
-    for cfg_i in range(len(CFGS)):
-        for root_i in range(len(ROOTS)):
-            items.append((len(items), root_i, cfg_i))
+    for phase_i in range(len(phases)):
+        for cfg_i in range(len(CFGS)):
+            for root_i in range(len(ROOTS)):
+                items.append((len(items), phase_i, root_i, cfg_i))
     ctx.rule = ("BFS over all interleavings of client actions on the real FIXNewOrderSingle (new, cancel, replace "
                 "price / qty up / qty down / qty below the fill unit whenever can_*() is true, consume next report) "
                 "and exchange-model actions (receive request, pending-new, ack, reject, partial/full fill, pending "
                 "ack, canceled, replaced, cancel-reject, unsolicited cancel, expire, suspend, resume) over two FIFO "
                 "channels; states merged on (order attributes, exchange state, channels, bookkeeping); a path stops "
-                "at its first violating state; per ClOrdID root x quantity configuration. Non-trivial = distinct "
+                "at its first violating state; one BFS per phase (wide: any number of reports in flight, shallow; "
+                "deep: bounded number of reports in flight, more steps and requests) x ClOrdID root x quantity "
+                "configuration; 'states' adds up the distinct states of each BFS. Non-trivial = distinct "
                 "quiescent (order, exchange) states reached after at least one cancel/replace request.")
-    ctx.bounds = {"depth": t["depth"], "max_cancel_replace_requests": t["max_req"],
+    ctx.bounds = {"phases": [dict(p) for p in phases],
                   "roots": [r for r, _ in ROOTS], "quantity_configs": [list(c) for c in CFGS],
                   "orders": 1}
     res = ctx.pmap(explore, items, chunk=1)
@@ -631,12 +673,10 @@ def run(ctx):
         s = r["stats"]
         ctx.count(states=s["states"], transitions=s["transitions"], traces=s["real_calls"],
                   evaluations=s["states"], quiescent_states=s["quiescent"],
-                  violating_states=s["violating_states"], states_cut_at_depth_bound=s["frontier_cut"],
+                  violating_states=s["violating_states"], states_at_depth_bound=s["frontier_cut"],
                   probes_beyond_request_cap=s["req_cap_probes"], nontrivial=r["nontrivial"])
         for oc in r["outcomes"]:
             ctx.outcomes.add(tuple(oc))
-        for sm in r["samples"][:1]:
-            ctx.sample(sm)
         for x in r["viols"]:
             b = best.get(x["signature"])
             if b is None:
@@ -645,6 +685,9 @@ def run(ctx):
                 keep, other = (b, x) if tuple(b["_rank"]) <= tuple(x["_rank"]) else (x, b)
                 keep["count"] += other["count"]
                 best[x["signature"]] = keep
+    # a few real cases: deepest clean quiescent state with all requests used, different roots / phases
+    for r in sorted((r for r in res if r["samples"]), key=lambda r: -len(r["samples"][0]["path"]))[:4]:
+        ctx.sample(r["samples"][0])
     out = []
     for sig in sorted(best):
         x = dict(best[sig])
@@ -664,8 +707,8 @@ def run(ctx):
         "exchange, at least one report sent for the order",
         "the exploration stops behind a violating state (after a cancel/replace reject nothing is explored today)",
     ]
-    ctx.notes.append("states beyond the depth bound are not expanded (bounded, not capped): "
-                     f"{ctx.counters.get('states_cut_at_depth_bound', 0)} frontier states")
+    ctx.notes.append("states at the depth bound are judged but not expanded (bounded, not capped): "
+                     f"{ctx.counters.get('states_at_depth_bound', 0)} such states")
 
 
 def replay(ctx, rep):
